@@ -55,7 +55,7 @@ theorem codeIdx_K (h : -29 ≤ line ∧ line ≤ 1) : codeIdx line = some 0 := b
 
 omit T Z E error shell own in
 /-- the lines of the K shell (by name) are the macros −29 … 1 (`KP5 … KL1`, K-alpha, K-beta) -/
-theorem lineShell_K (h : lineShell line = some 0) : -29 ≤ line ∧ line ≤ 1 := by
+theorem lineShell_K (h : lineShellK line = some 0) : -29 ≤ line ∧ line ≤ 1 := by
   rw [lineShell_eq] at h
   cases hf : List.find? (inSpec line) (List.range 9) with
   | none => rw [hf] at h; cases h
@@ -68,7 +68,7 @@ theorem lineShell_K (h : lineShell line = some 0) : -29 ≤ line ∧ line ≤ 1 
     simpa [inSpec, lineRanges] using this
 
 /-- the lines of the K shell: `CS_FluorLine_Kissel_no_Cascade` is `CS_FluorLine_Kissel_Cascade` -/
-theorem k_variants_equal_line_none (h : lineShell line = some 0) :
+theorem k_variants_equal_line_none (h : lineShellK line = some 0) :
     Gen.CS_FluorLine_Kissel_no_Cascade T Z line E error = Gen.CS_FluorLine_Kissel_Cascade T Z line E error := by
   have hk := codeIdx_K line (lineShell_K line h)
   unfold Gen.CS_FluorLine_Kissel_no_Cascade Gen.CS_FluorLine_Kissel_Cascade FUEL
@@ -78,7 +78,7 @@ theorem k_variants_equal_line_none (h : lineShell line = some 0) :
   simp only [this, k_variants_equal_shell_none]
 
 /-- the lines of the K shell: `CS_FluorLine_Kissel_Radiative_Cascade` is `CS_FluorLine_Kissel_Cascade` -/
-theorem k_variants_equal_line_rad (h : lineShell line = some 0) :
+theorem k_variants_equal_line_rad (h : lineShellK line = some 0) :
     Gen.CS_FluorLine_Kissel_Radiative_Cascade T Z line E error = Gen.CS_FluorLine_Kissel_Cascade T Z line E error := by
   have hk := codeIdx_K line (lineShell_K line h)
   unfold Gen.CS_FluorLine_Kissel_Radiative_Cascade Gen.CS_FluorLine_Kissel_Cascade FUEL
@@ -88,7 +88,7 @@ theorem k_variants_equal_line_rad (h : lineShell line = some 0) :
   simp only [this, k_variants_equal_shell_rad]
 
 /-- the lines of the K shell: `CS_FluorLine_Kissel_Nonradiative_Cascade` is `CS_FluorLine_Kissel_Cascade` -/
-theorem k_variants_equal_line_auger (h : lineShell line = some 0) :
+theorem k_variants_equal_line_auger (h : lineShellK line = some 0) :
     Gen.CS_FluorLine_Kissel_Nonradiative_Cascade T Z line E error = Gen.CS_FluorLine_Kissel_Cascade T Z line E error := by
   have hk := codeIdx_K line (lineShell_K line h)
   unfold Gen.CS_FluorLine_Kissel_Nonradiative_Cascade Gen.CS_FluorLine_Kissel_Cascade FUEL
@@ -102,7 +102,7 @@ theorem k_variants_equal_spec (v v' : Variant) : fluorShell T Z 0 E v own = fluo
   unfold fluorShell
   simp only [vacancy_K]
 
-theorem k_variants_equal_spec_line (v v' : Variant) (h : lineShell line = some 0) :
+theorem k_variants_equal_spec_line (v v' : Variant) (h : lineShellK line = some 0) :
     fluorLine T Z line E v own = fluorLine T Z line E v' own := by
   have h3 : line ≠ Hdr.LB_LINE := by
     have := lineShell_K line h; simp only [Hdr.LB_LINE]; omega
@@ -294,7 +294,7 @@ theorem fluorLine1_empty (v : Variant) : fluorLine1 T Z line E v (fun _ => .fail
   · by_cases h2 : E ≤ (0.0 : ℝ)
     · simp [h1, h2]
     · simp only [h1, h2, if_false]
-      cases lineShell line <;> simp
+      cases lineShellK line <;> simp
 
 omit error in
 theorem fluorLine_empty (v : Variant) : fluorLine T Z line E v (fun _ => .fails) = .fails := by
